@@ -107,7 +107,7 @@ def natural_failures(rng):
     # the same, with an input file of more than 1 MiB (anything remembered per file, e.g. keyed by path / size / mtime,
     # is remembered for this one too); the history's later runs read the same unchanged file
     big_cols = ["Id_1", "Me_1"]
-    big_lines = ["Id_1,Me_1"] + ["%d,%d.5" % (i, i % 97) for i in range(90000)] + ["17,3.5"]
+    big_lines = ["Id_1,Me_1"] + ["%d,%d.5" % (i, i % 97) for i in range(140000)] + ["17,3.5"]
     out.append({"api": "run", "script": "B_r <- B_1 * 2;\n", "structures": {"datasets": [{"name": "B_1", "DataStructure": [
         {"name": "Id_1", "type": "Integer", "role": "Identifier", "nullable": False},
         {"name": "Me_1", "type": "Number", "role": "Measure", "nullable": True}]}]},
@@ -468,7 +468,7 @@ def run(ctx):
     n_corpus = 8 if quick else 220
     scen = []
     for i in range(n_gen):
-        scen.append(("gen", rng.randrange(1 << 30)) if i % 8 else ("gen", rng.randrange(1 << 30), "dialect"))
+        scen.append(("gen", rng.randrange(1 << 30)) if i % 3 else ("gen", rng.randrange(1 << 30), "dialect"))
     for i in range(3 if quick else 60):
         scen.append(("dag", rng.randrange(1 << 30)))      # scalar results, UDOs, rulesets; half of them write result files
     cps = [e for e in corpus.discover() if e["bytes"] < 20000]
